@@ -871,12 +871,12 @@ func replayMain(prop *Prop, path string) int {
 func componentsOf(prop *Prop) map[string]string {
 	if prop.Engine == "B" && prop.ID != "C05" && prop.ID != "C07" {
 		return map[string]string{
-			"proto, compress":                 "real code, unmodified (C06: row and string caps lowered in the scratch copy)",
-			"lz4, zstd, city":                 "real code",
+			"proto, compress":                  "real code, unmodified (C06: row and string caps lowered in the scratch copy)",
+			"lz4, zstd, city":                  "real code",
 			"io.Reader / io.Writer under them": "simulated (simio.FaultyReader / FaultySink: segmentation, short reads, cut, reset, altered bytes, failing and short writes)",
-			"scheduler, clock, network":       "none: these surfaces are single-threaded and read no clock",
-			"reference model / codec":         "harness code (refproto, list-of-values and pending-bytes models)",
-			"toolchain":                       runtime.Version(),
+			"scheduler, clock, network":        "none: these surfaces are single-threaded and read no clock",
+			"reference model / codec":          "harness code (refproto, list-of-values and pending-bytes models)",
+			"toolchain":                        runtime.Version(),
 		}
 	}
 	m := map[string]string{
@@ -920,7 +920,7 @@ func writeEvidence(prop *Prop, tier string, base uint64, a *agg, wall float64, v
 		"max_site_pairs_in_one_run":  a.pairsMax,
 		"determinism_spot_check":     map[string]int{"runs_repeated_in_fresh_process": detChecked, "mismatches": detBad},
 		"workers":                    workers,
-		"components": componentsOf(prop),
+		"components":                 componentsOf(prop),
 	}
 	if len(a.siteSet) > 0 {
 		cov["yield_sites_reached"] = len(a.siteSet)
